@@ -747,23 +747,15 @@ func (interp *Interpreter) cfg(root *node, sc *scope, importPath, pkgName string
 					if dest.typ.incomplete {
 						return
 					}
-					if sc.global || sc.isRedeclared(dest) {
-						if n.anc != nil && n.anc.anc != nil && (n.anc.anc.kind == forStmt7 || n.anc.anc.kind == rangeStmt) {
-							// check for redefine of for loop variables, which are now auto-defined in go1.22
-							init := n.anc.anc.child[0]
-							var fi *node // for ident
-							if n.anc.anc.kind == forStmt7 {
-								if init.kind == defineStmt && len(init.child) >= 2 && init.child[0].kind == identExpr {
-									fi = init.child[0]
-								}
-							} else { // range
-								fi = init
-							}
-							if fi != nil && dest.ident == fi.ident {
-								n.gen = nop
-								break
-							}
-						}
+					switch {
+					case n.kind == defineStmt && isLoopVarCopy(n.anc, dest.ident, sc):
+						// The body of a for or range statement declares a variable with the name of a loop
+						// variable: it is a new variable, which shadows the per-iteration copy of the loop
+						// variable for the rest of the body.
+					case dest.ident == "_" && !sc.global:
+						// The blank identifier is not a variable: do not reuse the location of a previous
+						// one (or of a blank loop variable), possibly of another type.
+					case sc.global || sc.isRedeclared(dest):
 						// Do not overload existing symbols (defined in GTA) in global scope.
 						sym, _, _ = sc.lookup(dest.ident)
 						if !sc.global && n.kind == defineStmt && dest.ident != "_" {
@@ -3086,6 +3078,31 @@ func isNewDefine(n *node, sc *scope) bool {
 			return true // array or map value
 		}
 		return false // array, map or channel are always pre-defined in range expression
+	}
+	return false
+}
+
+// isLoopVarCopy returns true if ident is, in the scope sc of the body of a for or range
+// statement, the per-iteration copy of a loop variable (see blockStmt in cfg pre-order).
+func isLoopVarCopy(body *node, ident string, sc *scope) bool {
+	for body.anc != nil && (body.kind == varDecl || body.kind == constDecl || body.kind == declStmt) {
+		body = body.anc
+	}
+	if ident == "_" || body.kind != blockStmt || body.anc == nil {
+		return false
+	}
+	var copies []*node
+	switch body.anc.kind {
+	case forStmt7:
+		copies = body.child[:1]
+	case rangeStmt:
+		copies = body.child[:2]
+	}
+	sym := sc.sym[ident]
+	for _, c := range copies {
+		if sym != nil && c.ident == ident && c.findex == sym.index {
+			return true
+		}
 	}
 	return false
 }
